@@ -19,8 +19,6 @@ Transitive == Less(a, b) /\ Less(b, c) => Less(a, c)
 Incomparable(x, y) == ~Less(x, y) /\ ~Less(y, x)
 IncomparabilityIsCIEqual == Incomparable(a, b) <=> CIEqual(a, b)
 IncomparabilityTransitive == Incomparable(a, b) /\ Incomparable(b, c) => Incomparable(a, c)
-\* exported once per pair (c fixed to the empty string): the relation itself
-Export == (c = <<>>) => PrintT("R|" \o ToJson([a |-> a, b |-> b, less |-> Less(a, b), eq |-> CIEqual(a, b)]))
 \* powers of two as exponents (2^31 does not fit a TLC integer)
 Pow2Exponents == 0..31
 ====
